@@ -170,6 +170,109 @@ def declare(reg):
                  ensures=[O("result[0] == %s" % L_NP), O("result[1] == uf('mf_value', U('PVal'), self.func, %s)" % L_VL),
                           "old(pos) <= result[0] and result[0] < len(data)"], **common)
 
+    # --- string of characters from a set: greedy; an escape character followed by an escapable one contributes the escaped character
+    PS = Ref("PStr")
+    reg.cls("PStr", pyclasses=["String"], chars=Set(Opt(Chr)), echars=Set(Opt(Chr)), min_length=INT)
+    STEP_E = "(data[ps[{k}]] == '\\\\' and data[ps[{k}] + 1] in self.echars)"
+    STEP_C = "(data[ps[{k}]] in self.chars)"
+    SCH = ("len(ps) == len(rs) + 1 and ps[0] == old(pos) and forall(k, range(0, len(rs)), ps[k] < len(data) - 1 and ps[k + 1] < len(data) and "
+           "(ps[k + 1] == ps[k] + 2 and rs[k] == some(data[ps[k] + 1]) if %s else %s and ps[k + 1] == ps[k] + 1 and rs[k] == some(data[ps[k]])))"
+           % (STEP_E.format(k="k"), STEP_C.format(k="k")))
+    reg.contract(M, "String.process", locals=dict(results=List(Chr), ps=List(INT), rs=List(Chr), p=Opt(Chr), old=INT),
+                 ghosts=collections.OrderedDict(ps=(List(INT), "[pos]"), rs=(List(Chr), "[]")),
+                 ghost_on=[("pos += 2", "ps.append(pos); rs.append(some(data[pos - 1]))", "after"),
+                           ("pos += 1", "ps.append(pos); rs.append(some(data[pos - 1]))", "after")],
+                 loops={0: [SCH, "pos == ps[len(rs)] and old == old(pos)", "seq_eq(results, rs)", "p == data[pos]", "0 <= pos and pos < len(data)", "old(pos) <= pos"]},
+                 raises={"Exception": None}, raise_frame="unchanged",
+                 assume=["None not in self.chars and None not in self.echars"],
+                 note="String.__init__ builds both character sets from the characters of strings: the terminal None is in neither",
+                 ensures=[SCH, "result[0] == ps[len(rs)]", "result[1] == val_str(''.join(results)) and seq_eq(results, rs)", "len(rs) >= self.min_length",
+                          # greedy: it stopped because neither an escaped nor a plain character of the set is next
+                          "not %s and not %s" % (STEP_E.format(k="len(rs)"), STEP_C.format(k="len(rs)")),
+                          "old(pos) <= result[0] and result[0] < len(data)"],
+                 ensures_raise={"Exception": [SCH, "not %s and not %s" % (STEP_E.format(k="len(rs)"), STEP_C.format(k="len(rs)")), "len(rs) < self.min_length"]},
+                 **dict(common, params=dict(self=PS, pos=INT, data=DATA, ctx=Ref("PCtx"))))
+
+    # --- position marker: exactly the wrapped parser; the value is paired with the line / column of the ORIGINAL position
+    reg.interface("PCtx", "line", params=dict(self=Ref("PCtx"), pos=INT), returns=INT, pure=True, raises={}, ensures=["result == uf('ctx_line', INT, self, pos)"],
+                  note="Context.line / Context.col: read-only functions of the context and the position (bisect over the line table)")
+    reg.interface("PCtx", "col", params=dict(self=Ref("PCtx"), pos=INT), returns=INT, pure=True, raises={}, ensures=["result == uf('ctx_col', INT, self, pos)"])
+    reg.external("Mark", params=collections.OrderedDict(lineno=INT, col=INT, value=PVal), returns=PVal, pure=True, raises={},
+                 ensures=["result == uf('val_mark', U('PVal'), lineno, col, value)"], note="Mark(lineno, col, value) stores its three arguments")
+    reg.contract(M, "PosMarker.process", raises={"Exception": "not %s" % L_OK}, raise_frame="unchanged", assume=["len(self.children) >= 1"],
+                 ensures=[O("result[0] == %s" % L_NP),
+                          O("result[1] == uf('val_mark', U('PVal'), uf('ctx_line', INT, ctx, pos) + 1, uf('ctx_col', INT, ctx, pos) + 1, %s)" % L_VL),
+                          "old(pos) <= result[0] and result[0] < len(data)"], **common)
+    # --- lift: the children in sequence (each starts where the previous one stopped), then the function applied to all their values
+    PL = Ref("PLift")
+    LiftF = U("LiftFn")
+    reg.sort(LiftFn=LiftF)
+    reg.cls("PLift", pyclasses=["Lift"], children=List(P), name=PY, func=LiftF)
+    reg.callables[("PLift", "func")] = reg.external("<lifted function>", params=collections.OrderedDict(f=LiftF, vs=List(PVal)), returns=PVal,
+                                                    raises={"Exception": "uf('lf_raises', BOOL, f, vs)"}, raise_frame="unchanged",
+                                                    ensures=["result == uf('lf_value', U('PVal'), f, vs)"],
+                                                    note="a lifted function is deterministic in its arguments and raises only Exception subclasses")
+    reg.contract(M, "Lift.process", locals=dict(results=List(PVal), ps=List(INT), rs=List(PVal)),
+                 ghosts=collections.OrderedDict(ps=(List(INT), "[pos]"), rs=(List(PVal), "[]")),
+                 ghost_on=[("results.append(res)", "ps.append(pos); rs.append(res)", "after")],
+                 loops={0: [CHAIN.format(n="i_0"), "pos == ps[i_0]", "len(rs) == i_0 and seq_eq(results, rs)", "it_0 == self.children", "0 <= pos and pos < len(data)", "old(pos) <= pos"]},
+                 raises={"Exception": None}, modifies=["PCtx.function_error"],
+                 ensures=[CHAIN.format(n="len(self.children)"), "result[0] == ps[len(self.children)]",
+                          "result[1] == uf('lf_value', U('PVal'), self.func, results) and seq_eq(results, rs)",
+                          "not uf('lf_raises', BOOL, self.func, results)",
+                          "old(pos) <= result[0] and result[0] < len(data)"],
+                 ensures_raise={"Exception": [
+                     # it fails exactly when some child fails where the chain arrived, or every child succeeded and the function raises
+                     "exists(k, range(0, len(self.children)), len(ps) == k + 1 and not %s) or "
+                     "(%s and uf('lf_raises', BOOL, self.func, results) and seq_eq(results, rs))"
+                     % (OK.format(p="self.children[k]", pos="ps[k]"), CHAIN.format(n="len(self.children)"))]},
+                 **dict(common, params=dict(self=PL, pos=INT, data=DATA, ctx=Ref("PCtx"))))
+
+    # --- the operators and helpers that BUILD combinators: which class, over which children, in which order.  The class constructors are
+    # assumed (they store the children they are given); `kind` is the class of a parser object
+    KINDS = collections.OrderedDict(Sequence=1, Choice=2, KeepLeft=3, KeepRight=4, FollowedBy=5, NotFollowedBy=6, Until=7, Map=8)
+    KIND = "uf('kind', INT, {p})"
+    for cname in ("Sequence", "Choice"):
+        reg.external(cname, params=dict(children=List(P)), returns=P, raises={},
+                     ensures=["seq_eq(result.children, children)", "%s == %d" % (KIND.format(p="result"), KINDS[cname])],
+                     note="%s(children): a parser of that class over exactly the given children, in order (set_children appends each in turn)" % cname)
+    for cname in ("KeepLeft", "KeepRight", "FollowedBy", "NotFollowedBy", "Until"):
+        reg.external(cname, params=collections.OrderedDict(left=P, right=P), returns=P, raises={},
+                     ensures=["len(result.children) == 2 and result.children[0] == left and result.children[1] == right",
+                              "%s == %d" % (KIND.format(p="result"), KINDS[cname])],
+                     note="%s(left, right): a two-child parser of that class over (left, right)" % cname)
+    reg.external("Map", params=collections.OrderedDict(child=P, func=MapF), returns=P, raises={},
+                 ensures=["len(result.children) == 1 and result.children[0] == child and result.func == func", "%s == %d" % (KIND.format(p="result"), KINDS["Map"])])
+    BIN = dict(params=collections.OrderedDict(self=P, other=P), returns=P, raises={}, modifies=[])
+    PAIR = "len(result.children) == 2 and result.children[0] == self and result.children[1] == other"
+    # a + b on a parser that is not itself a sequence / a | b on one that is not itself a choice: a NEW two-child node (no flattening of the operands)
+    reg.contract(M, "Parser.__add__", ensures=[PAIR, "%s == 1" % KIND.format(p="result")], **BIN)
+    reg.contract(M, "Parser.__or__", ensures=[PAIR, "%s == 2" % KIND.format(p="result")], **BIN)
+    reg.contract(M, "Parser.__lshift__", ensures=[PAIR, "%s == 3" % KIND.format(p="result")], **BIN)
+    reg.contract(M, "Parser.__rshift__", ensures=[PAIR, "%s == 4" % KIND.format(p="result")], **BIN)
+    reg.contract(M, "Parser.__and__", ensures=[PAIR, "%s == 5" % KIND.format(p="result")], **BIN)
+    reg.contract(M, "Parser.__truediv__", ensures=[PAIR, "%s == 6" % KIND.format(p="result")], **BIN)
+    reg.contract(M, "Parser.until", params=collections.OrderedDict(self=P, pred=P), returns=P, raises={}, modifies=[],
+                 ensures=["len(result.children) == 2 and result.children[0] == self and result.children[1] == pred", "%s == 7" % KIND.format(p="result")])
+    reg.contract(M, "Parser.map", params=collections.OrderedDict(self=P, func=MapF), returns=P, raises={}, modifies=[],
+                 ensures=["len(result.children) == 1 and result.children[0] == self and result.func == func", "%s == 8" % KIND.format(p="result")])
+    # accumulation: (a + b) + c and (a | b) | c append to the SAME node, at the end; the other children keep their places
+    ACC = ["result == self", "seq_eq(self.children, old(self.children) + [other])",
+           "forall(q, Ref_P, implies(q != self, q.children == old(q.children)))"]
+    reg.interface("P", "add_child", params=collections.OrderedDict(self=P, child=P), returns=P, raises={}, modifies=["P.children"],
+                  ensures=[t.replace("other", "child") for t in ACC])
+    reg.contract(M, "Node.add_child", params=collections.OrderedDict(self=P, child=P), returns=P, raises={}, modifies=["P.children"],
+                 ensures=[t.replace("other", "child") for t in ACC])
+    reg.contract(M, "Sequence.__add__", params=collections.OrderedDict(self=P, other=P), returns=P, raises={}, modifies=["P.children"], ensures=ACC)
+    reg.contract(M, "Choice.__or__", params=collections.OrderedDict(self=P, other=P), returns=P, raises={}, modifies=["P.children"], ensures=ACC)
+    # sep_by's accumulator: the first element (unless it is the no-first marker) followed by the rest, in order; a falsy first element is an element
+    reg.glob(M, NO_FIRST=PY)
+    reg.dotted_globals = dict(getattr(reg, "dotted_globals", {}), **{"Parser._NO_FIRST": "NO_FIRST"})
+    reg.contract(M, "Parser._accumulate", static=True, params=collections.OrderedDict(first=PY, rest=List(PY)), returns=List(PY), raises={}, modifies=[],
+                 locals=dict(results=List(PY)),
+                 ensures=["implies(first is Parser._NO_FIRST, seq_eq(result, rest))",
+                          "implies(first is not Parser._NO_FIRST, seq_eq(result, [first] + rest))"])
+
     # ------------------------------------------------------------------ tag expression language (insights/core/taglang.py)
     T = "insights/core/taglang.py"
     PR = Ref("Pred")
